@@ -182,6 +182,10 @@ def step (s : DState) (line : String) : DState × String :=
     match p.toNat? with
     | some p => ({ s with lvl := Level.new p, g := 0, c04F1 := false, c04F2 := false, lastMakers := "", fork := none }, "new")
     | none => bad s line
+  | ["newgen", c] =>
+    match c.toNat? with
+    | some c => ({ s with g := c }, "newgen")
+    | none => bad s line
   | ["add", o] =>
     match parseOrder o with
     | some o =>
@@ -330,6 +334,21 @@ def step (s : DState) (line : String) : DState × String :=
         else if !untruthful.isEmpty then (s, "J C13 known in-flight")
         else (s, "J C13 ok")
     | none => bad s line
+  | ["judge.C08d", q, txs, rem, pre, post, v, h, c] =>
+    match q.toNat?, parseList parseTx txs, rem.toNat?, parseList parseOrder pre, parseList parseOrder post,
+        v.toNat?, h.toNat?, c.toNat? with
+    | some q, some txs, some rem, some pre, some post, some v, some h, some c =>
+      (s, if !(C06.ok q ⟨⟨false, 0⟩, txs, rem, rem == 0, []⟩ pre post) then "J C08 bad resting-order-not-reachable-by-matching"
+          else if !(C01.ok v h c post) then "J C08 bad aggregates-do-not-describe-what-remains"
+          else "J C08 ok")
+    | _, _, _, _, _, _, _, _ => bad s line
+  | ["judge.C14s", g, txs] =>
+    match g.toNat?, parseList parseTx txs with
+    | some g, some txs =>
+      let ks := txs.map (·.txid)
+      (s, if ks == (List.range ks.length).map (fun k => (g + k) % W) then "J C14 ok"
+          else "J C14 bad transaction-ids-are-not-the-next-counter-values")
+    | _, _ => bad s line
   | ["judge.C14", tr, _rets] =>
     match parseTrace tr with
     | some evs => (s, if C14.ok s.lastG evs then "J C14 ok" else "J C14 bad counter-values-not-a-fresh-range")
@@ -337,7 +356,7 @@ def step (s : DState) (line : String) : DState × String :=
   | ["rebuild", kind, l] =>
     match arrange s.lvl l with
     | some os =>
-      let lvl' := if kind == "data" || kind == "serde" || kind == "text" || kind == "lying-data"
+      let lvl' := if kind == "data" || kind == "serde" || kind == "text" || kind == "lying-data" || kind == "lying-serde" || kind == "lying-text"
         then Level.fromOrders s.lvl.price os
         else Level.fromSnapshot { price := s.lvl.price, vis := s.lvl.vis, hid := s.lvl.hid, cnt := s.lvl.cnt, orders := os }
       ({ s with lvl := lvl' }, "rebuild ok")
